@@ -46,6 +46,8 @@ def _rshift1(rng):
         return 0
     if c < 0.4:
         return rng.choice([-1, 1]) * (rng.randint(0, 7) + 0.5)      # exactly half a sample
+    if c < 0.47:
+        return rng.choice([-1, -2, -1.0, -2.0, 1, 2])
     if c < 0.6:
         return rng.choice([-1, 1]) * rng.randint(1, 8)
     if c < 0.7:
@@ -98,7 +100,11 @@ def _mutate_geom(rng, g, hi):
     which = rng.choice(["shift", "shift", "Q", "Q", "out", "out", "in", "qtype", "swapio", "swapio"])
     if which == "shift":
         c = rng.random()
-        if c < 0.3:
+        if c < 0.15:
+            # the neighbouring sample: same everything, one component one sample further
+            j = rng.randrange(2)
+            g["shift"][j] = g["shift"][j] + rng.choice([-1, 1])
+        elif c < 0.3:
             g["shift"] = [g["shift"][1], g["shift"][0]]
         elif c < 0.5:
             g["shift"] = [-g["shift"][0], -g["shift"][1]]
@@ -287,7 +293,8 @@ def generate(rng, tier):
             g = rng.choice(pool)
             m = g["in"][0]
             M = g["out"] if not isinstance(g["out"], list) else g["out"][0]
-            name = arr_for([m, m])
+            nn = g["in"][1] if (kind == "ffs" and rng.random() < 0.3) else m      # non-square pupils: ffs only
+            name = arr_for([m, nn])
             wvl = arrays[name]["wvl"]
             z = rng.uniform(10, 500)
             q = g["Q"] if not isinstance(g["Q"], list) else g["Q"][0]
@@ -596,7 +603,7 @@ def _geometry(op, arr_shape):
     if k == "ffs":
         q = op["wvl"] * op["z"] / (m * op["dx"]) / op["odx"]
         sh = (op["shift"][0] / op["odx"], op["shift"][1] / op["odx"])
-        return (q, q), _norm_out(op["out"]), sh, True
+        return (q, q), _norm_out(op["out"]), sh, True      # for m != n see _alt_geometry
     if k == "ufs":
         M = _norm_out(op["out"])[0]
         q = (op["wvl"] * op["z"] / (op["odx"] * M)) / op["dx"] / (m / M)
@@ -607,6 +614,19 @@ def _geometry(op, arr_shape):
         P = (math.ceil(m * Q), math.ceil(n * Q))
         return (P[0] / m, P[1] / n), P, (0.0, 0.0), k == "focus"
     raise RuntimeError(k)
+
+
+def _alt_geometry(op, arr_shape):
+    """Non-square pupil through focus_fixed_sampling: the routine takes ONE diameter.  The
+    implementation uses the extent along axis 0 for both axes (Q the same scalar on both,
+    i.e. m*Q != n*Q samples per cycle); the physically motivated reading gives each axis its
+    own extent (Q_x = Q_y * m / n).  Which one 'the grid that Q defines' means is a C03/C05
+    question, so either answer is accepted here."""
+    m, n = arr_shape
+    if op["op"] != "ffs" or m == n:
+        return None
+    q = op["wvl"] * op["z"] / (m * op["dx"]) / op["odx"]
+    return (q, q * m / n)
 
 
 def _features(plan, op):
@@ -799,6 +819,7 @@ def _judged(np, ft, pr, op, arrays, prec, step, history, violations, probes, bum
                            "feat": _features_from(m, n, Q, out, shift, a, np)})
         return r
     ref = ref_dft(np, arrays[op["arr"]], Q, out, shift, fwd)
+    alt_q = _alt_geometry(op, (m, n))
     scale = float(np.sum(np.abs(arrays[op["arr"]]))) / math.sqrt(m * Q[0] * n * Q[1])
     scale = max(scale, 1e-300)
     if not np.all(np.isfinite(res)):
@@ -811,6 +832,14 @@ def _judged(np, ft, pr, op, arrays, prec, step, history, violations, probes, bum
     else:
         err = float(np.max(np.abs(res - ref)))
         orc = "ref-complex"
+    if alt_q is not None and not (err <= tol * scale):
+        ref2 = ref_dft(np, arrays[op["arr"]], alt_q, out, shift, fwd)
+        err2 = float(np.max(np.abs(np.abs(res) - np.abs(ref2)))) if shifted else float(np.max(np.abs(res - ref2)))
+        if err2 <= tol * scale:
+            err = err2
+            bump(probes, "nonsquare_ffs_alternative_reading")
+    if alt_q is not None:
+        bump(probes, "nonsquare_ffs_judged")
     r["relerr"] = float(f"{err / scale:.2e}")
     if not (err <= tol * scale):
         violations.append({"oracle": orc, "step": step, "route": route, "err": err,
